@@ -142,11 +142,16 @@ func negotiatedSession(rw io.ReadWriter, o SessionOpts) (*xmpp.Session, error) {
 	}
 	var s *xmpp.Session
 	var err error
+	// (the context given to the constructor bounds the negotiation; it ends as
+	// soon as the constructor has returned, as with the usual
+	// "ctx, cancel := context.WithTimeout(...); defer cancel()")
+	nctx, ncancel := context.WithCancel(context.Background())
 	if o.Negotiated == "received" {
-		s, err = xmpp.ReceiveSession(context.Background(), rw, o.State, neg)
+		s, err = xmpp.ReceiveSession(nctx, rw, o.State, neg)
 	} else {
-		s, err = xmpp.NewSession(context.Background(), o.Remote, o.Local, rw, o.State, neg)
+		s, err = xmpp.NewSession(nctx, o.Remote, o.Local, rw, o.State, neg)
 	}
+	ncancel()
 	if err != nil {
 		return nil, fmt.Errorf("harness: negotiating (%s): %w", o.Negotiated, err)
 	}
@@ -169,7 +174,10 @@ func ReadySession(rw io.ReadWriter, o SessionOpts) (*xmpp.Session, error) {
 	if o.Negotiated != "" {
 		return negotiatedSession(rw, o)
 	}
-	ctx := context.Background()
+	// the context bounds the negotiation only: it has ended by the time the
+	// caller gets the session
+	ctx, cancelNegotiation := context.WithCancel(context.Background())
+	defer cancelNegotiation()
 	if o.WS {
 		ctx = context.WithValue(ctx, wskey.Key{}, struct{}{})
 	}
